@@ -1596,8 +1596,185 @@ fn one_case(c: &mut Ctx, rt: &tokio::runtime::Runtime, fam: &str, idx: u64) {
     }
 }
 
+
+// ------------------------------------------------- a zone that moves on ----
+
+/// A store layered over the in-memory one (the way `ZoneStore` is meant to be layered) that lets
+/// the zone move on at chosen moments: just before its n-th `read()` the next prepared version is
+/// committed. Whatever number of read interfaces the sender takes while it prepares a transfer,
+/// and whenever the commits land, what it sends must be one published version - SOA and records.
+struct MovingStore {
+    inner: Zone,
+    plan: std::sync::Mutex<Moving>,
+}
+
+struct Moving {
+    reads: usize,
+    /// the read() calls in front of which one more version is committed
+    commit_before: Vec<usize>,
+    versions: Vec<ZoneC>,
+    at: usize,
+    seed: u64,
+    failed: Option<String>,
+}
+
+impl std::fmt::Debug for MovingStore {
+    fn fmt(&self, f: &mut std::fmt::Formatter<'_>) -> std::fmt::Result {
+        f.write_str("MovingStore")
+    }
+}
+
+fn poll_now<F: Future>(f: F) -> Option<F::Output> {
+    let mut f = Box::pin(f);
+    let wk = futures_util::task::noop_waker();
+    let mut cx = std::task::Context::from_waker(&wk);
+    for _ in 0..100_000 {
+        if let std::task::Poll::Ready(v) = f.as_mut().poll(&mut cx) {
+            return Some(v);
+        }
+    }
+    None
+}
+
+impl domain::zonetree::ZoneStore for MovingStore {
+    fn class(&self) -> Class {
+        self.inner.class()
+    }
+    fn apex_name(&self) -> &domain::zonetree::StoredName {
+        self.inner.apex_name()
+    }
+    fn read(self: Arc<Self>) -> Box<dyn domain::zonetree::ReadableZone> {
+        let mut m = self.plan.lock().unwrap();
+        m.reads += 1;
+        let due = m.commit_before.iter().filter(|r| **r == m.reads).count();
+        for _ in 0..due {
+            if m.at + 1 >= m.versions.len() {
+                break;
+            }
+            let mut rng = Rng::new(&[m.seed, m.at as u64]);
+            let r = poll_now(step(&self.inner, &m.versions[m.at], &m.versions[m.at + 1], &mut rng, StepStyle::UpdaterRecords));
+            match r {
+                Some(Ok(_)) => m.at += 1,
+                Some(Err(e)) => m.failed = Some(e),
+                None => m.failed = Some("the commit did not complete".into()),
+            }
+        }
+        self.inner.read()
+    }
+    fn write(self: Arc<Self>) -> Pin<Box<dyn Future<Output = Box<dyn domain::zonetree::WritableZone + 'static>> + Send + Sync + 'static>> {
+        self.inner.write()
+    }
+    fn as_any(&self) -> &dyn std::any::Any {
+        self
+    }
+}
+
+fn moving_case(c: &mut Ctx, rt: &tokio::runtime::Runtime, fam: &str, idx: u64) {
+    let mut rng = c.case_rng(fam, idx);
+    let base = *rng.pick(&[7u32, 0xffff_fffd, 1_000_000]);
+    let nver = rng.range(2, 4);
+    let mut vs: Vec<ZoneC> = vec![];
+    let mut z0 = gen_zone(&mut rng, base);
+    set_serial(&mut z0, base);
+    vs.push(z0);
+    for i in 1..nver {
+        let serial = serial_of_rdata(&soa_of(&vs[i - 1]).rdata).wrapping_add(*rng.pick(&[1u32, 2, 1000]));
+        let n = next_version(&mut rng, &vs[i - 1], serial);
+        vs.push(n);
+    }
+    let apex = vs[0].apex.clone();
+    let inner = empty_zone(&apex);
+    if rt.block_on(fill(&inner, &vs[0])).is_err() {
+        return;
+    }
+    // where the commits land: in front of the first, second, third or fourth read() (the last ones may never come)
+    let commit_before: Vec<usize> = (1..nver).map(|_| rng.range(1, 4)).collect();
+    let store = Arc::new(MovingStore { inner, plan: std::sync::Mutex::new(Moving { reads: 0, commit_before: commit_before.clone(), versions: vs.clone(), at: 0, seed: c.seed ^ idx, failed: None }) });
+    let zone = Zone::new(ArcStore(store.clone()));
+    let compat = rng.chance(1, 4);
+    let qtype = if rng.chance(1, 4) { T_IXFR } else { T_AXFR };
+    let query = mk_query(&apex, qtype, rng.u16(), base.wrapping_sub(3));
+    let ex = json!({"versions": vs.iter().map(|z| describe(&content(z).into_iter().collect::<Vec<_>>())).collect::<Vec<_>>(), "commit_before_read": commit_before, "qtype": qtype, "compat": compat});
+    let p = Provider { zone, diffs: vec![], compat, always_offer_diffs: false };
+    let r = ctx::catch(|| rt.block_on(serve(p, query, None, 0)));
+    let msgs = match r {
+        Err(pi) => {
+            c.violation(&format!("panic:{}", pi.site()), &format!("panic while a transfer is served from a zone that moves on: {} at {}:{}", pi.msg, pi.file, pi.line), c.replay_of(fam, idx, ex));
+            return;
+        }
+        Ok(Err(e)) => {
+            c.note(&format!("moving: transfer not served: {}", e));
+            return;
+        }
+        Ok(Ok(m)) => m,
+    };
+    let m = store.plan.lock().unwrap();
+    if let Some(e) = &m.failed {
+        c.note(&format!("harness: a scripted commit failed: {}", e));
+        return;
+    }
+    let Some(recs) = flatten(&msgs) else {
+        c.violation("moving:stream-unparseable", "the transfer cannot be parsed", c.replay_of(fam, idx, ex));
+        return;
+    };
+    if recs.len() < 2 || recs[0].rtype != T_SOA || recs[recs.len() - 1].rtype != T_SOA {
+        c.violation("moving:stream-not-framed", "the transfer does not start and end with an SOA", c.replay_of(fam, idx, ex));
+        return;
+    }
+    let serial = serial_of_rdata(&recs[0].rdata);
+    let got: Content = recs[..recs.len() - 1].iter().map(|r| (w::lower(&r.owner), r.rtype, r.ttl, norm(r.rtype, &r.rdata))).collect();
+    c.eval(&("moving", m.reads.min(4), m.at, nver, commit_before.iter().map(|x| *x).min()));
+    c.count("moving_transfers_served", 1);
+    if m.at > 0 {
+        c.count("moving_transfers_with_a_commit_during_preparation", 1);
+    }
+    // every version that was current at some moment of the preparation is a fine answer
+    let fits = (0..=m.at).any(|j| content(&vs[j]) == got);
+    if !fits {
+        let by_serial = (0..vs.len()).find(|j| serial_of_rdata(&soa_of(&vs[*j]).rdata) == serial);
+        let others: Vec<usize> = (0..vs.len()).filter(|j| Some(*j) != by_serial && { let cj = content(&vs[*j]); got.iter().filter(|r| r.1 != T_SOA).all(|r| cj.contains(r)) && cj.iter().filter(|r| r.1 != T_SOA).all(|r| got.contains(r)) }).collect();
+        let what = match (by_serial, others.first()) {
+            (Some(j), Some(o)) => format!("the transfer carries the SOA of version {} (serial {}) around the records of version {}", j, serial, o),
+            (Some(j), None) => format!("the transfer carries the SOA of version {} (serial {}) but its records are those of no version: {}", j, serial, diff_text(&content(&vs[j]), &got.iter().cloned().collect::<Vec<_>>())),
+            (None, _) => format!("the transfer's SOA serial {} is that of no version", serial),
+        };
+        c.violation("moving:transfer-is-no-published-version", &format!("{} commits landed in front of read() calls {:?} of {} while the transfer was prepared: {}", m.at, commit_before, m.reads, what), c.replay_of(fam, idx, ex));
+    }
+}
+
+/// `Zone::new` takes a store by value; this forwards to the shared one the harness keeps a handle on.
+#[derive(Debug)]
+struct ArcStore(Arc<MovingStore>);
+impl domain::zonetree::ZoneStore for ArcStore {
+    fn class(&self) -> Class {
+        self.0.inner.class()
+    }
+    fn apex_name(&self) -> &domain::zonetree::StoredName {
+        self.0.inner.apex_name()
+    }
+    fn read(self: Arc<Self>) -> Box<dyn domain::zonetree::ReadableZone> {
+        self.0.clone().read()
+    }
+    fn write(self: Arc<Self>) -> Pin<Box<dyn Future<Output = Box<dyn domain::zonetree::WritableZone + 'static>> + Send + Sync + 'static>> {
+        self.0.clone().write()
+    }
+    fn as_any(&self) -> &dyn std::any::Any {
+        self
+    }
+}
+
 pub fn run(c: &mut Ctx) {
     let rt = tokio::runtime::Builder::new_current_thread().enable_all().build().unwrap();
+    c.families(2);
+    let fam = "moving";
+    let total = c.total(6_000, 300_000);
+    for idx in c.cases(fam, total) {
+        if c.out_of_time() {
+            break;
+        }
+        ctx::slot_write(idx, &format!("{}|case", fam), &[]);
+        moving_case(c, &rt, fam, idx);
+    }
     let fam = "pairs";
     let total = c.total(80_000, 3_000_000);
     for idx in c.cases(fam, total) {
@@ -1608,7 +1785,7 @@ pub fn run(c: &mut Ctx) {
         one_case(c, &rt, fam, idx);
     }
     if !c.replaying() {
-        for key in ["commit_diffs_checked", "end_to_end_full", "end_to_end_incremental", "repackaged_full", "repackaged_incremental", "multi_step_incremental", "transfers_accepted", "transfers_rejected", "sender_multi_message_streams", "aftermath_transfers_checked", "sender_streams_with_reserved_octets", "transfers_fetched_through_stream_client", "multi_step_transfers_fetched_through_stream_client"] {
+        for key in ["commit_diffs_checked", "end_to_end_full", "end_to_end_incremental", "repackaged_full", "repackaged_incremental", "multi_step_incremental", "transfers_accepted", "transfers_rejected", "sender_multi_message_streams", "aftermath_transfers_checked", "sender_streams_with_reserved_octets", "transfers_fetched_through_stream_client", "multi_step_transfers_fetched_through_stream_client", "moving_transfers_served", "moving_transfers_with_a_commit_during_preparation"] {
             c.floor(key, 5);
         }
     }
